@@ -95,4 +95,23 @@ example : sendOnFull none true (.ms 100) (some 40) = .ok 40 ∧ sendOnFull none 
     ∧ sendOnFull none false .infinite none = .waiting := by
   decide
 
+-- DEALER's pending queue ---------------------------------------------------------------------------------------------------------------------
+
+/-- DEALER buffers at most SNDHWM messages in its pending queue plus the one its processor holds, in every reachable state -/
+theorem dealer_pending_queue_is_bounded (cap hwm : Nat) (evs : List DealerEv) :
+    (Dealer.run currentDealerCfg { cap := cap, hwm := hwm } evs).pending.length
+      + (Dealer.run currentDealerCfg { cap := cap, hwm := hwm } evs).hand.toList.length ≤ max hwm 1 + 1 := by
+  rw [C01.dealer_source_shape]
+  have h := (Dealer.run_inv _ evs (Dealer.inv_init cap hwm)).bound
+  have hh : (Dealer.run goodDealer { cap := cap, hwm := hwm } evs).hwm = hwm := Dealer.run_hwm _ _ evs
+  rw [hh] at h
+  exact h
+
+/-- a DEALER send that is refused (queue and pipe full) changes nothing: no message is half-queued, none is dropped, the
+counter is untouched -/
+theorem dealer_refused_send_changes_nothing (d : Dealer) (m : Nat)
+    (h : (Dealer.step currentDealerCfg d (.send m)).accepted = d.accepted) :
+    Dealer.step currentDealerCfg d (.send m) = { d with refused := d.refused ++ [m] } :=
+  Dealer.refused_send_changes_nothing _ d m h
+
 end Rzmq.C14
